@@ -92,7 +92,9 @@ PROPS = {
         "Two halves. Range (Engine K): the RNG is a nondeterministic stub (every RNG stream at once); Standard samples lie within the "
         "type's bounds, Uniform samples between the two ends, hues on the requested arc. Volume law (Engine S): every Standard float draw "
         "is a symbolic variable u in [0,1); the real cone / bicone / HWB samplers are executed symbolically and z3 decides for all draws "
-        "that the sample is the inverse CDF of the volume measure (value^3 = r1, saturation^2 = r2, 4 l^3 = r1 ...).",
+        "that the sample is the inverse CDF of the volume measure (value^3 = r1, saturation^2 = r2, 4 l^3 = r1 ...); the Uniform samplers "
+        "of the cone, bicone (Hsl, Okhsl, Hsluv) and HWB types are executed symbolically with rand's Uniform as its contract and z3 decides "
+        "for all ends and all draws that saturation / value / lightness (HWB: the equivalent HSV saturation and value) lie between the ends.",
         "Trusted: z3, Kani/CBMC/cadical; rand's Standard / Uniform float contracts (uniform on [0,1), low + (high-low) u); the statistical "
         "quality of rand is outside the claim.", engines=("kani", "symx")),
     "C20": kprop(
@@ -120,7 +122,8 @@ PROPS = {
         "Differential symbolic checking of every directly implemented conversion against an independent transcription of its published "
         "definition (CIE 15 with exact rational epsilon/kappa, the standards' transfer curves, Smith's hexcone HSV/HSL/HWB, Ottosson's "
         "Oklab matrices) built in the same term arena: z3 searches the whole input box, both sides of every piecewise join and every hue "
-        "sector, for an input where code and definition differ by more than the tolerance; both the SIMD (mask) and the scalar code path.",
+        "sector, for an input where code and definition differ by more than the tolerance; both the SIMD (mask) and the scalar code path. "
+        "Also: change of RGB standard inside HSV/HSL/HWB, Oklab -> XYZ on 12 hue directions, Luma -> xyY chromaticity.",
         "Trusted: z3; the transcriptions in symx/src/reference (each cites its source); transcendental functions are shared "
         "uninterpreted symbols, so the check decides everything around them (arguments, exponents, thresholds, branch structure)."),
     "C07": sprop(
@@ -187,7 +190,8 @@ PROPS = {
         "Symbolic execution of the real RGB<->XYZ, XYZ->Lab/Luv/Oklab and chromatic-adaptation code for every RGB standard / white point "
         "pair; z3 decides, for ALL greys / colours in the stated boxes, that white maps to the white point, neutrals stay neutral, the "
         "matrices are mutual inverses and agree with the primaries, and adaptation maps white to white, is the identity for equal white "
-        "points and round-trips.",
+        "points and round-trips - for the static white-point pairs and for run-time white points of luminance factor other than 1 "
+        "(adaptation_matrix(Some, Some)).",
         "Trusted: z3; the independent derivation of the RGB matrices from the published chromaticities (symx/src/reference/rgbspace.rs). "
         "Rounding of individual float operations is outside the claim."),
     "C05": sprop(
